@@ -156,9 +156,7 @@ theorem conectPairs_blocks (ids : List Int) (A B1 B2 B3 B4 rest : Line) (hA : A.
     conectPairs ids ("CONECT".toList ++ (A ++ (B1 ++ (B2 ++ (B3 ++ (B4 ++ rest)))))) =
       (let decoded := ([B1, B2, B3, B4].map decodeH36).takeWhile (fun r => match r with | .ok _ => true | .error _ => false)
        let ps := decoded.filterMap (fun r => match r with | .ok v => some v | .error _ => none)
-       match ps.mapM (findIdx ids) with
-       | none => none
-       | some js => some (.ok (js.map fun j => (c, j)))) := by
+       some (.ok ((ps.filterMap (findIdx ids)).map fun j => (c, j)))) := by
   obtain ⟨s0, s1, s2, s3, s4⟩ := conect_slices A B1 B2 B3 B4 rest hA h1 h2 h3 h4
   unfold conectPairs
   simp only [s0, s1, s2, s3, s4, hd, hf]
@@ -309,8 +307,7 @@ theorem conect_roundtrip (h36 : Bool) (idv : List Int) (idt : List Line) (bonds 
   refine ⟨normBonds ((pl.map fun x => x.2.map fun j => (x.1, j)).flatten), ?_, ?_⟩
   · unfold readBonds
     have hemp : idv.isEmpty = false := by cases idv with | nil => exact absurd rfl hne | cons _ _ => rfl
-    simp only [hposb, pairwise_le_last idv hinc, pairwise_incr_check idv hinc, Bool.and_false, Bool.false_eq_true,
-      if_false, Bool.and_self, Bool.not_true, hemp, Bool.or_self, hfilter]
+    simp only [pairwise_le_last idv hinc, Bool.false_eq_true, if_false, hemp, hfilter]
     have hm : mapMR (conectPairs idv) (pl.map mk) = some (.ok (pl.map fun x => x.2.map fun j => (x.1, j))) := by
       have := mapMR_ok (fun x => conectPairs idv (mk x)) (fun x => x.2.map fun j => (x.1, j)) pl hpl
       -- mapMR over a mapped list
